@@ -558,6 +558,28 @@ func c01Run(c *Ctx) {
 		}
 		c01Judge(c, cs)
 	}
+	// assignment associates to the right: a chain and its fully parenthesised spelling are one program, also when an
+	// outer target reads what an inner assignment writes
+	for _, pr := range [][2]string{
+		{"tail.next = tail = node;", "(tail.next = (tail = node));"}, {"log[top] = top = top + 1;", "(log[top] = (top = (top + 1)));"},
+		{"o.a = o.b = o = {a: 0, b: 0, n: r};", "(o.a = (o.b = (o = {a: 0, b: 0, n: r})));"}, {"log[top = top + 1] = top = top * 2;", "(log[(top = (top + 1))] = (top = (top * 2)));"},
+	} {
+		mk := func(st string) string {
+			return Lines(Var("head", "{val: 0, next: nil}"), Var("tail", "head"), Var("log", "[0, 0, 0, 0, 0, 0, 0, 0, 0]"), Var("top", "0"), Var("o", "{a: 1, b: 2}"), Var("keep", "o"),
+				For(Var("r", "1"), "r <= 3", "r = r + 1", "{ "+Var("node", "{val: r, next: nil}")+" "+st+" }"), Var("cur", "head"), Var("n", "0"), While("cur != nil && n < 10", "{ "+Print("cur.val")+" n = n + 1; cur = cur.next; }"), Print("tail.val"), Print("log"), Print("top"), Print("o"), Print("keep"))
+		}
+		for _, mode := range []string{"", "cli"} {
+			if c.Mine() {
+				c01Judge(c, &Case{Gen: "paren-program-equivalence", Mode: mode, Src: mk(pr[0]), Alt: []string{mk(pr[1])}, X: map[string]string{"t0": "parentheses-full"}})
+			}
+		}
+	}
+	// literals of many digits are leaves of the tree like any other: the tree of the printed text carries the same values
+	for _, lit := range []string{"3.14159265358979323846", "1.7976931348623157", "123456789.123456789", "0.49999999999999994", "4503599627370496.5", "9007199254740993", "0.1000000000000000055511151231257827", "\u09e9.\u09e7\u09ea\u09e7\u09eb\u09ef\u09e8\u09ec\u09eb\u09e9\u09eb\u09ee\u09ef\u09ed\u09ef\u09e9\u09e8\u09e9\u09ee\u09ea\u09ec", "179769313486231570000000000000000000000.5"} {
+		for _, form := range []string{"%s;", "a = %s + %s * 2;", "- %s ** 2;", "[%s, {k: %s}];", "f(%s)[%s];"} {
+			tj(&Case{Gen: "expr-in-slot", Src: strings.ReplaceAll(form, "%s", lit)})
+		}
+	}
 	// one token sequence, one tree, however it is cut into lines: a data table wrapped, on one physical line of
 	// 80-200 KB, and the whole program on one line, through the binary (line terminators are not tokens)
 	for _, cs := range c18LongLineCases("paren-program-equivalence") {
